@@ -126,6 +126,49 @@ fn space_snap(s: &PacketSpace) -> SpaceSnap {
     }
 }
 
+/// One sent packet that is still tracked (neither acknowledged, nor declared lost, nor abandoned): what the
+/// congestion accounting knows about it (C12 ledger oracle `in-flight-bytes-unaccounted`)
+#[derive(Debug, Clone, PartialEq, Eq)]
+pub struct OutPkt {
+    /// 0 Initial, 1 Handshake, 2 Data
+    pub space: u8,
+    pub pn: u64,
+    /// bytes counted in flight for it (0: not in flight)
+    pub size: u16,
+    pub ack_eliciting: bool,
+    /// generation of the path object it was accounted on
+    pub path_generation: u64,
+    pub time_sent: Instant,
+}
+
+impl Connection {
+    /// Every sent packet still tracked, all spaces, increasing packet number within a space
+    pub fn verif_outstanding(&self) -> Vec<OutPkt> {
+        let mut v = Vec::new();
+        for (i, s) in self.spaces.iter().enumerate() {
+            for (pn, p) in s.sent_packets.range(..) {
+                v.push(OutPkt {
+                    space: i as u8,
+                    pn,
+                    size: p.size,
+                    ack_eliciting: p.ack_eliciting,
+                    path_generation: p.path_generation,
+                    time_sent: p.time_sent,
+                });
+            }
+        }
+        v
+    }
+
+    /// Generation of the current path object and of the remembered previous path, if any
+    pub fn verif_path_generations(&self) -> (u64, Option<u64>) {
+        (
+            self.path.generation(),
+            self.prev_path.as_ref().map(|(_, p)| p.generation()),
+        )
+    }
+}
+
 impl Connection {
     /// Is this packet still tracked as sent and unresolved (neither acknowledged, nor declared lost, nor
     /// abandoned with its packet number space)? `space`: 0 Initial, 1 Handshake, 2 Data
